@@ -1286,7 +1286,7 @@ Proof.
            ++ split; [discriminate|]. intros H. specialize (H k (or_introl eq_refl)). unfold st_ok in H.
               rewrite G, ST, CM in H. destruct H as [H|[_ H]]; discriminate.
            ++ set (w1 := w_set_nodes (alist_set k (mkWN (wn_pending n) m' []) (w_nodes w))
-                           (w_set_g (set_h_prenode (k :: g_h_prenode (w_g w)) (w_g w)) w)).
+                           (w_set_g (set_h_prenode (static_handlers (w_g w) k) (w_g w)) w)).
               rewrite (IH w1).
               assert (EQ : forall k', st_ok w1 k' <-> st_ok w k').
               { intros k'. unfold st_ok. destruct (String.eqb k' k) eqn:X.
